@@ -440,6 +440,43 @@ fn check_files_concat(case: &Case, ctx: &mut Ctx) -> Option<Violation> {
     ) {
         return Some(v);
     }
+    // arguments are read in the order given, whatever their names sort like and whether
+    // they are files or directories: the first file under a name that sorts last, the second
+    // as the only entry of a directory whose name sorts first
+    if files.len() >= 2 {
+        if let Some(base) = ctx.fresh_dir() {
+            let mut paths: Vec<String> = Vec::new();
+            let mut args: Vec<String> = Vec::new();
+            for (i, _) in files.iter().enumerate() {
+                if i == 1 {
+                    let d = format!("{base}/a-dir");
+                    let _ = std::fs::create_dir_all(&d);
+                    paths.push(format!("{d}/only.json"));
+                    args.push(d);
+                } else {
+                    let p = format!("{base}/z{}-part.json", 9 - i.min(9));
+                    paths.push(p.clone());
+                    args.push(p);
+                }
+            }
+            let mut spec = sim_files_spec(case, &paths, &files, &[]);
+            let keep = spec.argv.len() - paths.len();
+            spec.argv.truncate(keep);
+            spec.argv.extend(args);
+            let sf = ctx.exec(spec);
+            let _ = std::fs::remove_dir_all(&base);
+            ctx.stats.probe("file arguments with unsorted names and a directory among them");
+            if let Some(v) = compare(
+                "C17.files-concat",
+                &format!("{} arguments (names not in sorted order, the second one a directory holding one file) vs the same bytes on stdin", files.len()),
+                &sf,
+                &d0,
+                false,
+            ) {
+                return Some(v);
+            }
+        }
+    }
     // a file named twice is read twice: f1 .. fn f1 must equal the stream followed by f1 again
     if !files.is_empty() && !files[0].is_empty() && matches!(files[0].last(), Some(b' ' | b'\n' | b'\t' | b'\r')) && matches!(input.last(), Some(b' ' | b'\n' | b'\t' | b'\r') | None) {
         let mut twice = input.clone();
